@@ -392,6 +392,10 @@ def check_call_shapes(ctx, cfg):
             out = r.value
         except Raised as r:
             out = ("RAISE", r.what)
+        except (TypeError, KeyError, AttributeError, IndexError) as ex:
+            # the generated code fails on the stand-ins the way it would on real arguments (it looks something up
+            # under a key that is no key, calls what is no function, ...)
+            out = ("RAISE", f"{type(ex).__name__}: {ex}")
         if not (isinstance(out, tuple) and out and out[0] == "CALL"):
             problems.append(f"for {desc} the entry point does not return the method's call ({out!r})")
             continue
